@@ -21,6 +21,12 @@ class Check(EngineCheck):
                 # free-running completion threads / cancellation from any thread at every item boundary
                 "LLBuild.Refine.runBuildA_refines", "LLBuild.Refine.refinement_final_async", "LLBuild.Refine.build_terminates_async",
                 "LLBuild.Refine.EngineImpl_sound_C01_async", "LLBuild.Refine.EngineImpl_terminates_async",
+                # schedule independence stated on the concrete model's PRINTED traces (Props/EngineImplSched.lean): two runs of
+                # the next build under any hook / asynchronous schedules and cancellation points that both succeed return
+                # the same value, the clean value of the concrete external state; the F22 ghost flag is a function of the traces
+                "LLBuild.Refine.EngineImpl_sound_C06_schedule_independent", "LLBuild.Refine.EngineImpl_sound_C06_clean_value",
+                "LLBuild.Refine.EngineImpl_sound_C06_clean_value_unique", "LLBuild.Refine.EngineImpl_sound_C06_ghost_flag",
+                "LLBuild.Refine.EngineImpl_sound_C06_schedule_independent_partial", "LLBuild.Refine.EngineImpl_sound_C06_clean_value_partial",
                 "LLBuild.Refine.EngineImpl_sound_C05_quiescent_async", "LLBuild.Refine.EngineImpl_async_nil"]
     mix = [(0.45, {}), (0.35, {"threads": True}), (0.2, {"foreign_cancel": True})]
     budget = (300, 3000)
